@@ -222,10 +222,13 @@ def run_thread_case(case):
     return res
 
 
-def execute(sc, replay=None, strategy=None, crash=None, db_fault=None):
+def execute(sc, replay=None, strategy=None, crash=None, db_fault=None,
+            steal_capture=None, steal_recapture=False):
     c = dict(sc)
+    c['steal_recapture'] = steal_recapture
     c['crash'] = crash
     c['db_fault'] = db_fault
+    c['steal_capture'] = steal_capture
     w = sh.SchedWorld(c, replay=replay, strategy=strategy)
     out = {'inconclusive': None}
     try:
@@ -249,6 +252,7 @@ def execute(sc, replay=None, strategy=None, crash=None, db_fault=None):
                 'choice_meta': list(w.choice_meta),
                 'ihash': w.interleaving_hash(), 'crashed': set(w.crashed),
                 'total_lines': w.total_lines,
+                'steals': list(getattr(w, 'steals', [])),
                 'undeclared': [(u['label'], u['exc']) for u in
                                _unit_excs(w)]})
     return out
@@ -263,7 +267,9 @@ def judge(sc, r, res, desc, allow_unit_exc=()):
     inv = {}
     for e in r['invocations']:
         inv.setdefault(e['tag'], []).append(e)
-    ncrash = len(r['crashed'])
+    # the process that won an injected capture never finishes the job: it
+    # counts as one more process that died while holding it
+    ncrash = len(r['crashed']) + len(r.get('steals') or [])
     legacy = sc['impl'] == 'legacy'
 
     def viol(mech, msg):
@@ -296,6 +302,19 @@ def judge(sc, r, res, desc, allow_unit_exc=()):
                  'job %s ran %d times with %d crashed instances: %s' % (
                      tag, len(calls), ncrash,
                      [(c['instance'], c['t']) for c in calls]))
+    for st in r.get('steals') or []:
+        res['monitor_evaluations']['capture-lost'] = \
+            res['monitor_evaluations'].get('capture-lost', 0) + 1
+        for c in r['invocations'][st['n_inv']:]:
+            if c['tag'] == st['tag'] and c.get('uid') == st['uid']:
+                viol('invoked-after-losing-capture',
+                     'instance %s invoked job %s in unit %s although '
+                     'another process had captured the job right before this '
+                     'instance\'s own capturing UPDATE (%s): its UPDATE must '
+                     'match nothing' % (
+                         st['instance'], st['tag'], st['unit'],
+                         'recapture after the capture timeout'
+                         if st['recapture'] else 'first capture'))
     w = r['world']
     res['monitor_evaluations']['key-query'] = \
         res['monitor_evaluations'].get('key-query', 0) + w.key_evals
@@ -396,6 +415,29 @@ def run_case(case):
                       allow_unit_exc=('DBDeadlock',))
                 res['keys'].append([sig, 'deadlock-%d-%d' % (inst, k),
                                     r['ihash']])
+    # capture lost to another process (concurrent-writer injection) on the
+    # recorded schedules: the n-th capturing UPDATE of the run is pre-empted
+    def steal_runs(choices, crash, label):
+        for n in (1, 2, 3):
+            r = execute(sc, replay=choices, crash=crash, steal_capture=n,
+                        steal_recapture=crash is not None)
+            res['executions'] += 1
+            if r['inconclusive']:
+                res['inconclusive'] = r['inconclusive']
+                return
+            if not r['steals']:
+                return
+            res['interleavings'].append(r['ihash'])
+            judge(sc, r, res, {'scenario': sc, 'choices': r['choices'],
+                               'crash': crash, 'steal_capture': n,
+                               'steal_recapture': crash is not None,
+                               'explore': label})
+            res['keys'].append([sig, '%s-%s-%d' % (label, crash, n),
+                                r['ihash']])
+    if sc['impl'] == 'default':
+        for choices in scheds[:2 if case['random'] <= 6 else 4]:
+            steal_runs(choices, None, 'capture-lost')
+    recapture_points = []
     # crash enumeration on a few recorded schedules
     if sc['instances'] > 1 or True:
         prng.shuffle(scheds)
@@ -415,4 +457,16 @@ def run_case(case):
                     res['extra']['crash_points'] += 1
                     if not r['crashed']:
                         break       # k beyond this instance's statements
+                    if sc['impl'] == 'default' and any(
+                            len([c for c in r['invocations']
+                                 if c['tag'] == t]) >= 1 and
+                            any(c['instance'] != inst
+                                for c in r['invocations'] if c['tag'] == t)
+                            for t in r['jobs']):
+                        recapture_points.append((choices, inst, k))
+    # ... and lost while *re*capturing the job of a dead instance
+    prng.shuffle(recapture_points)
+    for choices, inst, k in recapture_points[:4 if case['random'] <= 6
+                                             else 12]:
+        steal_runs(choices, {'instance': inst, 'k': k}, 'recapture-lost')
     return res
